@@ -142,17 +142,32 @@ def check_hash_type_tokens(cx, rep, rule='SUM-INTO'):
 
 def check_type_with_meta(cx, rep, rule='PARAM'):
     """`Into(Type [, params..])`: the type, then — if anything follows — a comma and all remaining metas"""
+    from ..restable import table
     fs = find(cx, 'common::type::TypeWithPunctuatedMeta::parse')
     if len(fs) != 1:
         rep.broken.append('TypeWithPunctuatedMeta::parse not found')
         return
     f = fs[0]
-    b = norm(f.block)
-    want = ('{letty=input.parse::<Type>()?;ifinput.is_empty(){returnOk(Self{ty:ty,list:Punctuated::new()});}input.parse::<Token!(,)>()?;'
-            'letlist=input.parse_terminated(Meta::parse,Token!(,))?;Ok(Self{ty:ty,list:list})}')
-    b = b.replace('Token![,]', 'Token!(,)')
-    b2 = b.replace('Self{ty,list:Punctuated::new()}', 'Self{ty:ty,list:Punctuated::new()}').replace('Self{ty,list}', 'Self{ty:ty,list:list}')
-    if b2 == want:
+    rows = [(tuple(r[0]), r[1].replace('Token![,]', 'Token!(,)')) for r in table(cx, f)]
+    TY = '$0.parse::<Type>()?'
+    LIST = '$0.parse_terminated(Meta::parse,Token!(,))?'
+    want = {(('if($0.is_empty())',), 'Ok(Self{ty:%s,list:Punctuated::new()})' % TY), (('!if($0.is_empty())',), 'Ok(Self{ty:%s,list:%s})' % (TY, LIST))}
+    ok = set(rows) == want or set(rows) == {(('!if(!$0.is_empty())',), 'Ok(Self{ty:%s,list:Punctuated::new()})' % TY), (('if(!$0.is_empty())',), 'Ok(Self{ty:%s,list:%s})' % (TY, LIST))}
+    # order of the parser calls on the input: type, emptiness test, comma, remaining metas
+    fw = cx.fw(f)
+    tm = cx.gm.terms_of(fw)
+    p0 = [p_[0] for p_ in f.params() if p_[0] != 'self'][:1]
+    seq = []
+    for ev in sorted((e for e in fw.events if e.kind == 'mcall'), key=lambda e: e.seq):
+        if p0 and tm.term(ev.recv, ev.scope) == ('param', p0[0]):
+            tf = ev.node.get('turbofish')
+            tft = ''
+            if tf:
+                t0 = tf[0]
+                tft = (t0.get('ty', {}).get('text') or ty_s(t0['ty'])).replace(' ', '') if t0.get('k') == 'Type' else ''
+            seq.append((ev.method, tft.replace('Token![,]', 'Token!(,)').replace('Token![,]'.replace(' ', ''), 'Token!(,)')))
+    seq_ok = [m_ for m_, _ in seq] == ['parse', 'is_empty', 'parse', 'parse_terminated'] and seq[0][1] == 'Type' and 'Token' in seq[2][1] and ',' in seq[2][1]
+    if ok and seq_ok:
         rep.ok(rule, f.qname + '|type then all parameters')
     else:
-        rep.bad(rule, f.qname, 'shape', '`Into(Type, params..)` is no longer parsed as "the type, then every remaining parameter"', f.file, f.line)
+        rep.bad(rule, f.qname, 'shape', '`Into(Type, params..)` is no longer parsed as "the type, then every remaining parameter" (cases %s; parser calls %s)' % (sorted(rows), seq), f.file, f.line)
